@@ -215,6 +215,14 @@ func AtomUnits() []*Unit {
 			m.F("note", 2, String, Optional)
 			us = append(us, b.Unit())
 		}
+		{
+			b := NewUnit(p+"mapnullstruct", syntax, "wkt").Atom("imported-enum-only-as-map-value")
+			b.Import("google/protobuf/struct.proto")
+			m := b.Msg("MapEnumOnly")
+			m.Map("nulls", 1, Int32, Enum, ".google.protobuf.NullValue")
+			m.F("note", 2, String, Optional)
+			us = append(us, b.Unit())
+		}
 		// ---- a file that declares no message at all
 		{
 			b := NewUnit(p+"enumonly", syntax, "enumonly").Atom("file-without-messages")
@@ -470,6 +478,35 @@ func AtomUnits() []*Unit {
 		us = append(us, b.Unit())
 	}
 	{
+		// two nested messages with the same short name under different parents; only one of them is extended
+		b := NewUnit("p2extsamename", "proto2", "ext-samename").Atom("extended-and-plain-message-with-equal-short-names")
+		rq := b.Msg("Request")
+		ro := rq.Nested("Options")
+		ro.F("a", 1, Int32, Optional).ExtRange(100, 200)
+		rq.F("id", 1, Int32, Optional) // (the harness bridge sets gogo extensions on top-level values only: Options is not used as a field here)
+		rs := b.Msg("Response")
+		so := rs.Nested("Options")
+		so.F("b", 1, String, Optional)
+		rs.FMsg("opts", 1, so.Full(), Optional).FMsg("more", 2, so.Full(), Repeated)
+		b.Msg("Holder").Ext("trace_id", 100, Int64, Optional, "", ro.Full()).Ext("trace_tag", 101, String, Optional, "", ro.Full())
+		us = append(us, b.Unit())
+	}
+	{
+		// a message field named like the local variables the generated Unmarshal keeps per extension number
+		b, base := extUnit("p2extnameclash", "ext-message", "field-named-like-extension-local")
+		ch := addChild(b)
+		base.FMsg("ext100", 2, ch.Full(), Optional).FMsg("xraw_100", 3, ch.Full(), Optional)
+		b.Msg("Holder").Ext("x_child", 100, Message, Optional, ch.Full(), base.Full())
+		us = append(us, b.Unit())
+	}
+	{
+		// an extension whose type lives in another Go package, which nothing else in the file uses
+		b, base := extUnit("p2extwkt", "ext-message", "extension-of-imported-type")
+		b.Import("google/protobuf/duration.proto")
+		b.Msg("Holder").Ext("x_dur", 100, Message, Optional, ".google.protobuf.Duration", base.Full())
+		us = append(us, b.Unit())
+	}
+	{
 		// the extension's message type has required fields (one of them behind an optional one in field-number order)
 		b, base := extUnit("p2extreq", "ext-required", "extension-message-with-required-fields")
 		leaf := b.Msg("ReqLeaf")
@@ -493,6 +530,10 @@ func AtomUnits() []*Unit {
 		col := addColorEnum(b)
 		ch := addChild(b)
 		h.Ext("x_colors", 104, Enum, Repeated, col.Full(), base.Full()).Ext("x_children", 105, Message, Repeated, ch.Full(), base.Full())
+		// the remaining packable kinds (each has its own packed decoder)
+		for i, t := range []FT{Sint32, Sint64, Uint32, Uint64, Int64, Bool, Fixed32, Fixed64, Sfixed32, Float, Double} {
+			h.Ext("x_rep_"+TypeName(t), int32(110+i), t, Repeated, "", base.Full())
+		}
 		us = append(us, b.Unit())
 	}
 	{
